@@ -158,6 +158,7 @@ def _malformed(G, B, n, nxt):
 def _rf_write_step(nxt: int, written: int, n: int, ns: Optional[int], continuous: bool, raw: int) -> bool:
     """
     pre: 0 <= written <= nxt <= 4 and 0 <= n <= 2**20 and (raw == n or raw == 2 * n)
+    pre: written >= 1 or nxt == 0
     pre: ns is None or 0 <= ns <= 6
     post: _
     """
@@ -199,6 +200,7 @@ def _blocks_step(nxt, written, n, G, B, continuous):
 def _rf_write_blocks_1(nxt: int, written: int, n: int, g0: int, b0: int, continuous: bool) -> bool:
     """
     pre: 0 <= written <= nxt <= 2**40 and 1 <= n <= 2**20
+    pre: written >= 1 or nxt == 0
     pre: 0 <= g0 <= 2**41 and 0 <= b0 <= 2**41
     post: _
     """
@@ -210,6 +212,7 @@ def _rf_write_blocks_1(nxt: int, written: int, n: int, g0: int, b0: int, continu
 def _rf_write_blocks_2(nxt: int, written: int, n: int, g0: int, g1: int, b0: int, b1: int, continuous: bool) -> bool:
     """
     pre: 0 <= written <= nxt <= 2**40 and 1 <= n <= 2**20
+    pre: written >= 1 or nxt == 0
     pre: 0 <= g0 <= 2**41 and 0 <= b0 <= 2**41 and 0 <= g1 <= 2**41 and 0 <= b1 <= 2**41
     post: _
     """
@@ -219,6 +222,7 @@ def _rf_write_blocks_2(nxt: int, written: int, n: int, g0: int, g1: int, b0: int
 def _rf_write_blocks_3(nxt: int, written: int, n: int, g0: int, g1: int, g2: int, b0: int, b1: int, b2: int, continuous: bool) -> bool:
     """
     pre: 0 <= written <= nxt <= 2**40 and 1 <= n <= 2**20
+    pre: written >= 1 or nxt == 0
     pre: 0 <= g0 <= 2**41 and 0 <= b0 <= 2**41 and 0 <= g1 <= 2**41 and 0 <= b1 <= 2**41 and 0 <= g2 <= 2**41 and 0 <= b2 <= 2**41
     post: _
     """
